@@ -166,18 +166,29 @@ def generate_jaqal_block(statement, depth, indent_first_line):
         output += "<\n"
     else:
         output += "{\n"
-    for gate in statement:
-        if isinstance(gate, GateStatement):
-            output += generate_jaqal_gate(gate, depth + 1)
-        elif isinstance(gate, LoopStatement):
-            output += generate_jaqal_loop(gate, depth + 1)
-        elif isinstance(gate, BlockStatement):
-            output += generate_jaqal_block(gate, depth + 1, True)
+    output += generate_jaqal_block_statements(statement, depth + 1)
     output += "\t" * depth
     if statement.parallel:
         output += ">\n"
     else:
         output += "}\n"
+    return output
+
+
+def generate_jaqal_block_statements(block, depth):
+    output = ""
+    for gate in block:
+        if isinstance(gate, GateStatement):
+            output += generate_jaqal_gate(gate, depth)
+        elif isinstance(gate, LoopStatement):
+            output += generate_jaqal_loop(gate, depth)
+        elif isinstance(gate, BlockStatement):
+            if gate.parallel == block.parallel and not gate.subcircuit:
+                # Jaqal has no syntax for a block directly inside a block of
+                # the same kind; its statements mean the same written inline.
+                output += generate_jaqal_block_statements(gate, depth)
+            else:
+                output += generate_jaqal_block(gate, depth, True)
     return output
 
 
